@@ -240,15 +240,23 @@ JANET_API extern int (*janet_verif_gc_safepoint)(void);
 
 /* Trace a function call */
 static void vm_do_trace(JanetFunction *func, int32_t argc, const Janet *argv) {
+    /* Format the whole line before printing anything: printing can call back into
+     * Janet (a function as (dyn :err)), and that call can reallocate the fiber stack
+     * that argv points into. */
+    JanetBuffer buf;
+    janet_buffer_init(&buf, 64);
     if (func->def->name) {
-        janet_eprintf("trace (%S", func->def->name);
+        janet_formatb(&buf, "trace (%S", func->def->name);
     } else {
-        janet_eprintf("trace (%p", janet_wrap_function(func));
+        janet_formatb(&buf, "trace (%p", janet_wrap_function(func));
     }
     for (int32_t i = 0; i < argc; i++) {
-        janet_eprintf(" %p", argv[i]);
+        janet_formatb(&buf, " %p", argv[i]);
     }
-    janet_eprintf(")\n");
+    janet_formatb(&buf, ")\n");
+    const uint8_t *line = janet_string(buf.data, buf.count);
+    janet_buffer_deinit(&buf);
+    janet_eprintf("%S", line);
 }
 
 /* Invoke a method once we have looked it up */
@@ -1045,6 +1053,8 @@ static JanetSignal run_vm(JanetFiber *fiber, Janet in) {
             func = janet_unwrap_function(callee);
             if (func->gc.flags & JANET_FUNCFLAG_TRACE) {
                 vm_do_trace(func, fiber->stacktop - fiber->stackstart, fiber->data + fiber->stackstart);
+                /* printing the trace can run Janet code on this fiber and move its stack */
+                stack = fiber->data + fiber->frame;
             }
             vm_commit();
             if (janet_fiber_funcframe(fiber, func)) {
@@ -1085,6 +1095,8 @@ static JanetSignal run_vm(JanetFiber *fiber, Janet in) {
             func = janet_unwrap_function(callee);
             if (func->gc.flags & JANET_FUNCFLAG_TRACE) {
                 vm_do_trace(func, fiber->stacktop - fiber->stackstart, fiber->data + fiber->stackstart);
+                /* printing the trace can run Janet code on this fiber and move its stack */
+                stack = fiber->data + fiber->frame;
             }
             if (janet_fiber_funcframe_tail(fiber, func)) {
                 janet_stack_frame(fiber->data + fiber->frame)->pc = pc;
